@@ -172,6 +172,10 @@ def compare(lines, model, checked, release):
     returns list of (index, kind) disagreements"""
     dis = []
     for i, (m, c, r) in enumerate(zip(model, checked, release)):
+        if c == "@model":
+            if m == "bad-request":
+                dis.append((i, "bad-request"))
+            continue
         if m == "bad-request" or c == "bad-request":
             dis.append((i, "bad-request"))
         elif m.startswith("ok") and lines[i].startswith("sweep "):
